@@ -8,6 +8,10 @@ them; K — model and real code on the same inputs, at unit level (_replace_whol
 cpp_ast_finder) and through the whole pipeline (metadata add_cpp_function -> generated query.cxx / Analyzer.cc).
 Oracle: the decidable Specs (SubstSpec, BuildAccepts, SitesOk/NoPendingFull, PipeSpec) evaluated by the Lean
 driver on what the implementation produced.
+Meaning of the built-ins' own code (tools/c11_lib/builtin_exec.py, both tiers): the code lines probed out of the source are
+compiled with g++ against stand-in ROOT headers and mock objects; DeltaR is judged on an angle grid by the Lean clause
+Angle.DeltaRGridSpec (lean/FaxVerif/C11/Angle.lean: exact integer wrap, proved canonical / equal to ROOT's Phi_mpi_pi
+loops / symmetric in the argument order / periodic), generated queries over the built-ins by the meaning of the column.
 """
 from __future__ import annotations
 
@@ -17,7 +21,7 @@ import re
 from typing import Any, Dict, List, Optional, Tuple
 
 import vlib
-from c11_lib import gen, impl
+from c11_lib import builtin_exec, gen, impl
 
 ID = "C11"
 OWN_LEANCHECKER = True  # this module runs leanchecker itself in the thorough tier
@@ -32,9 +36,11 @@ THEOREMS = [_T + n for n in [
     "finder_rejects_iff", "finder_rejects_full_partial", "call_sites_found_partial", "receiver_not_name_counterexample", "receiver_bound",
     "result_visible", "includes_added", "pipeline_sound_partial", "query_sound_partial",
     "unique_name_injective_partial", "fresh_counterexample", "builtins_satisfy_hypotheses", "builtins_signatures", "nonnull_is_modelled",
+    "wrap_is_canonical", "root_phi_mpi_pi_is_wrap", "deltaR_builtin_meaning", "deltaR_order_irrelevant", "deltaR_periodic",
+    "deltaR_azimuth_bounded", "fmod_wrap_characterised", "fmod_wrap_counterexample",
 ]]
 RULE = (
-    "four streams. subst: template lines built from parameter names, longer words containing them, member accesses, "
+    "five streams. subst: template lines built from parameter names, longer words containing them, member accesses, "
     "string literals and operators, with replacement lists of 1-5 bindings (receiver first, argument texts that mention "
     "other parameters, backslashes, empty text, duplicate names), exhaustive for all lines of <=5 (quick) / <=6 (thorough) "
     "characters over {a,b,+,space} x 6 binding lists, random beyond; 12% of the random lines carry non-ASCII characters on "
@@ -45,20 +51,31 @@ RULE = (
     "consumed by Count(), by summing the elements' pt() or by .pt() so that the declared variable type and the ./-> access are "
     "observed) plus the built-ins, a tuple of "
     "1-4 columns each a tree of injected calls nested to depth 3, run through apply_ast_transformations + write_cpp_files "
-    "on the ATLAS (80%) and both CMS back ends. Non-trivial: subst - a parameter occurs in the line (as a word or inside "
-    "one); build/find/query - at least one call site of an injected function. Distinct = distinct input."
+    "on the ATLAS (80%) and both CMS back ends. builtin-exec (one g++ compile per run, both tiers): the code lines of every built-in "
+    "as probed out of the source, wrapped as the translator injects them and compiled with their own include files against stand-in "
+    "ROOT headers — DeltaR on the grid eta = e/8, phi = k*pi/16 for ALL 65x65 pairs (k1, k2) of azimuths in [-2pi, 2pi] (every pair in "
+    "both argument orders, on either side of the seam phi = +-pi, both range conventions), random pseudorapidities, judged by the Lean "
+    "clause DeltaRGridSpec; getAttributeFloat / getAttributeVectorFloat / isNonnull on generated mock objects — plus generated queries over "
+    "the built-ins (DeltaR with argument trees over j.pt()/eta()/phi()/m(), constants, negations, sums and differences, nested DeltaR to "
+    "depth 2, getAttributeFloat as an argument; getAttributeVectorFloat consumed by Count()/Sum(); isNonnull(j.globalTrack()) on CMS) "
+    "translated by the real pipeline, the loop body compiled against 6-10 mock objects per query whose values are drawn around the seam "
+    "(grid angles, pi - 10^-n, +-3.0/3.1/3.14, uniform in [-2pi, 2pi]) and compared with the meaning of the column. "
+    "Non-trivial: subst - a parameter occurs in the line (as a word or inside "
+    "one); build/find/query - at least one call site of an injected function; builtin-exec - every case. Distinct = distinct input."
 )
 TRUSTED_BASE = [
     "hand model of cpp_ast.py (Model.lean) tied to the code by the correspondence streams of this run; the built-in specifications by re-extraction (Generated/C11Builtins.lean)",
     "the harness tools/props/c11.py + tools/c11_lib (generators; parser of the loop body of the generated C++ into declarations / plain blocks / column assignments; renaming of declared names by first occurrence; measurement of the C++ text of injection-free argument expressions by translating them alone)",
     "Python's classification of the non-ASCII characters of a case (re \\w, str.isidentifier) is passed to the model as data; on ASCII both are [A-Za-z0-9_]",
     "C++ semantics of the injected block (scoping of a braced block, visibility of the enclosing declaration) is not modelled; thorough tier compiles executable specifications with g++ and compares values",
+    "meaning of the built-ins' code: g++ 12 and libm; the stand-in headers TVector2.h / TMath.h of tools/c11_lib/builtin_exec.py (Phi_mpi_pi written as in ROOT's TVector2.cxx; its output on the grid is checked against Lean's Angle.phiMpiPi = wrap on every run) and the mock objects (pt/eta/phi/m, getAttribute<T>, globalTrack().isNonnull()); Float arithmetic of the final formula in DeltaRGridSpec (the wrapped azimuth difference is an exact integer); the Python reference (math.hypot, math.remainder) for the generated queries",
 ]
 ASSUMPTIONS = [
     "parameter names, the method-object word and function names are identifiers; code lines contain no newline and are not a lone brace",
     "the regex class \\w and the identifier class agree on the characters next to a parameter occurrence (true on ASCII; the listed finding shows a combining mark where they differ)",
     "argument expressions without injected calls are rendered by the translator independently of where they occur (their text is measured once per run)",
     "user-supplied C++ is side-effect free as far as the values compared in the thorough tier are concerned",
+    "DeltaR(eta1, phi1, eta2, phi2) means sqrt((eta1-eta2)^2 + w^2) with w the azimuth difference phi1-phi2 taken on the circle (|w| <= pi), for azimuths in any range convention; values are compared with relative/absolute tolerance 1e-9 (the function is continuous, also across the seam)",
 ]
 LEVEL_TEXT = (
     "Machine-checked proof (Lean 4), for every line, every replacement list whose names are words (of ANY word-character class), "
@@ -69,7 +86,11 @@ LEVEL_TEXT = (
     "names); for every tree of injected calls, any nesting and repetition: blocks in evaluation order, each the substituted template "
     "plus final assignment to a variable declared in the enclosing block with the declared type, includes present, variables "
     "pairwise distinct (function names not ending in a digit). The model is tied to the code on every run by differential "
-    "execution at unit level and through the full pipeline, and the decidable Specs are evaluated on the implementation's output."
+    "execution at unit level and through the full pipeline, and the decidable Specs are evaluated on the implementation's output. "
+    "Meaning of the built-in DeltaR (exact, on angle grids of any resolution): ROOT's Phi_mpi_pi loops compute the canonical representative "
+    "in [-h, h) for every angle, hence the built-in code computes the distance with the azimuth difference on the circle, which is "
+    "independent of the argument order and of whole turns; the truncating-remainder formula is characterised (one turn off for every "
+    "difference below -pi). That clause is tied to the code by compiling the code lines of the source on every run (g++), not proved of the C++ text."
 )
 LEVEL_NOTE = (
     "Trusted: Lean kernel (axioms audited); agreement model/code is checked by execution, not proved; the harness's parser of the "
@@ -613,7 +634,8 @@ def generated_cases(ctx):
     rng = ctx.rng
     quick = ctx.tier == "quick"
     for c in corpus_cases(ID):
-        yield "corpus", c
+        if c.get("kind") not in ("builtin", "bquery"):  # those go to builtin_exec.run
+            yield "corpus", c
     for c in gen.subst_exhaustive(5 if quick else 6):
         yield "subst-exhaustive", c
     for _ in range(6000 if quick else 60000):
@@ -655,6 +677,14 @@ def run(ctx):
                     ctx.count("query:generated-inside-a-defect-exclusion(dropped)")
         evaluate(ctx, [(s, c) for s, c in chunk if c["kind"] != "query" or id(c) in keep])
         ctx.check_time()
+    # what the supplied code of the built-ins computes (one g++ compile; tools/c11_lib/builtin_exec.py)
+    extra = [c for c in vlib.corpus_cases(ID) if c.get("kind") in ("builtin", "bquery") and c["backend"] in usable]
+    import time
+
+    t_b = time.time()
+    builtin_exec.run(ctx, tables(), 40 if ctx.tier == "quick" else 200, backends=sorted(usable), extra=extra)
+    ctx.notes.append("builtin-exec stream: %.1f s of %.1f s" % (time.time() - t_b, time.time() - ctx.t0))
+    ctx.check_time()
     if ctx.tier == "thorough":
         from c11_lib import exec_oracle
 
@@ -762,6 +792,8 @@ def search(ctx, broken):
 
 def replay(ctx, rep) -> int:
     case = rep["case"]
+    if case.get("kind") in ("builtin", "bquery"):
+        return builtin_exec.replay(ctx, tables(), case)
     r = run_impl(case)
     a = ctx.driver(DRIVER, requests_for(case, r))
     why, dis = judge(case, r, a)
